@@ -23,6 +23,7 @@ ItemAt(g) ==
   ELSE IF g <= O8 THEN SigWidthAt(g - O7)
   ELSE IF g <= O9 THEN AlWordAt(g - O8)
   ELSE VWidthAt(g - O9)
+Histories == IF "VERIF_TIER" \in DOMAIN IOEnv /\ IOEnv.VERIF_TIER = "thorough" THEN 300 ELSE 40
 VARIABLE n
 INSTANCE GenBase
 =============================================================================
